@@ -114,8 +114,12 @@ func constraintAdditionalProperties(key string, n cue.Value, s *state) {
 		expr, _ := s.schemaState(n, allTypes, func(s *state) {
 			s.preserveUnknownFields = false
 		})
+		var label ast.Expr = ast.NewIdent("string")
+		if len(existing) > 0 {
+			label = ast.NewBinExpr(token.AND, existing...)
+		}
 		f := embedStruct(ast.NewStruct(&ast.Field{
-			Label: ast.NewList(ast.NewBinExpr(token.AND, existing...)),
+			Label: ast.NewList(label),
 			Value: expr,
 		}))
 		obj.Elts = append(obj.Elts, f)
